@@ -1,0 +1,33 @@
+//go:build verif
+
+// Contracts for the gocv verifier (comment-only file; see /verif/DESIGN.md §4).
+package ip_set
+
+// parseNetipPrefix (C13): text with a '/' is exactly what netip.ParsePrefix makes of it; an
+// address without '/' becomes the single-address prefix of that address (its full bit length).
+//@ func parseNetipPrefix [C13]
+//@   log parseNetipPrefix
+//@   ensures result_1 == nil ==> result_0.bits >= 0 && result_0.addr.valid
+//@   ensures containsRune(s, 47) ==> calls(ParsePrefix) == 1 && arg(ParsePrefix, 0, 0) == s && result_0 == ret(ParsePrefix, 0, 0) && result_1 == ret(ParsePrefix, 0, 1) && calls(ParseAddr) == 0
+//@   ensures !containsRune(s, 47) ==> calls(ParseAddr) == 1 && arg(ParseAddr, 0, 0) == s && calls(ParsePrefix) == 0
+//@   ensures !containsRune(s, 47) && ret(ParseAddr, 0, 1) != nil ==> result_1 != nil
+//@   ensures !containsRune(s, 47) && ret(ParseAddr, 0, 1) == nil ==> result_1 == nil && result_0.bits == bitlen(ret(ParseAddr, 0, 0)) && result_0.addr == ret(ParseAddr, 0, 0)
+
+// LoadFromIPs (C13): every text is parsed and appended, in order; the first bad one stops the load.
+//@ func LoadFromIPs [C13]
+//@   requires l != nil
+//@   modifies *
+//@   loop 0:
+//@     invariant l != nil && 0 <= it0
+//@     each iter_calls(parseNetipPrefix) == 1 && iter_arg(parseNetipPrefix, 0, 0) == s && iter_ret(parseNetipPrefix, 0, 1) == nil && iter_calls(listAppend) == 1 && iter_arg(listAppend, 0, 0) == l && len(iter_arg(listAppend, 0, 1)) == 1 && iter_atcall(listAppend, 0, iter_arg(listAppend, 0, 1)[0] == iter_ret(parseNetipPrefix, 0, 0))
+//@   ensures result == nil ==> it0 == len(ips)
+
+// MatcherGroup.Match (C13): an address is in the group iff some member set contains it; every
+// member is asked about exactly the caller's address until one says yes.
+//@ func (mg MatcherGroup) Match [C13]
+//@   requires forall k int :: 0 <= k && k < len(mg) ==> mg[k] != nil
+//@   ensures result ==> calls(MatchI) >= 1 && lastret(MatchI) && lastarg(MatchI, 1) == addr
+//@   ensures !result ==> it0 == len(mg)
+//@   loop 0:
+//@     invariant 0 <= it0 && it0 <= len(mg)
+//@     each iter_calls(MatchI) == 1 && !iter_ret(MatchI, 0) && iter_arg(MatchI, 0, 0) == m && iter_arg(MatchI, 0, 1) == addr
